@@ -38,6 +38,10 @@ func expectFor(o bop, fpPresent bool) string {
 	case "realm", "nonce", "software":
 		return ifThen(len(o.Val)/2 <= 763, "nil", "overflow")
 	case "textas":
+		if o.Port < 0 {
+			return "nil" // documented: "If maxLen is less than 0, no check is performed"
+		}
+
 		return ifThen(len(o.Val)/2 <= o.Port, "nil", "overflow")
 	case "errattr":
 		return ifThen(len(o.Val)/2 <= 763, "nil", "overflow")
@@ -291,6 +295,9 @@ func genC09Op(rt *rapid.T) (bop, bool) {
 		o.Port = rapid.IntRange(0, 1000).Draw(rt, "maxLen")
 		o.Type = addType(rt)
 		o.Val = toHex(gen.Bytes(rt, textLen(o.Port), "text"))
+		if rapid.IntRange(0, 5).Draw(rt, "noLimit") == 0 {
+			o.Port = rapid.SampledFrom([]int{-1, -2, -1000}).Draw(rt, "negMaxLen") // "no check"
+		}
 	case "xor", "xoras", "mapped", "mappedas", "alt", "origin", "other":
 		n := rapid.IntRange(0, 20).Draw(rt, "ipLen")
 		o.IP = toHex(gen.Bytes(rt, n, "ip"))
